@@ -28,6 +28,7 @@ def dispatch (fam : String) : Option (List String → String → Option Res) :=
   | "wvalue" => some runWvalue
   | "sigconv" => some runSigconv
   | "alloc" => some runAlloc
+  | "allocrep" => some runAllocRep
   | "divvy" => some runDivvy
   | _ => none
 
